@@ -1,7 +1,7 @@
 /-
   C11: escape processing of quoted strings — models `bytes(s, 'utf-8').decode('unicode_escape')`
   followed by `ord()` for printable ASCII text and the escapes  \n \t \r \\ \" \' \a \b \f \v,
-  \xHH (two hex digits) and octal \o, \oo, \ooo.  Anything else after a backslash is kept verbatim
+  \xHH (two hex digits), \uHHHH (four) and octal \o, \oo, \ooo.  Anything else after a backslash is kept verbatim
   (backslash included), as Python does for unknown escapes.
 -/
 import BespokeVerif.Model.Expr
@@ -31,6 +31,14 @@ def unescape : List Char → List Nat
         else 92 :: 120 :: unescape (h1 :: h2 :: rest')  -- (the real decoder raises; generators avoid this)
       | [h1] => 92 :: 120 :: unescape [h1]
       | [] => [92, 120]
+    | 'u' =>
+      -- \uHHHH: one character with that code point (one value; a data directive keeps its low bits)
+      match rest with
+      | h1 :: h2 :: h3 :: h4 :: rest' =>
+        if isHexDigit h1 && isHexDigit h2 && isHexDigit h3 && isHexDigit h4 then
+          (((hexVal h1 * 16 + hexVal h2) * 16 + hexVal h3) * 16 + hexVal h4) :: unescape rest'
+        else 92 :: 117 :: unescape (h1 :: h2 :: h3 :: h4 :: rest')
+      | r => 92 :: 117 :: unescape r
     | _ =>
       if isOctDigit c then
         match rest with
